@@ -39,7 +39,7 @@ func renderTo(b *strings.Builder, v MalType, depth int) {
 	case int:
 		b.WriteString("I" + strconv.Itoa(t))
 	case string:
-		b.WriteString("S" + hx(t))
+		b.WriteString("S" + hx(canonString(t)))
 	case Symbol:
 		b.WriteString("Y" + hx(t.Val))
 	case List:
